@@ -3,7 +3,7 @@
 // extracted Coq model, and evaluates the property's own predicates (exact big-integer /
 // big-rational arithmetic, independent of the model) on the implementation's results.
 //
-//	D k s n scaleBits offsetBits raw start ; T v     decode of a standard signal (k: c,f,i,d)
+//	D k s n scaleBits offsetBits raw start ; T:gotype v   decode of a standard signal (k: c,f,i,d)
 //	N n cnt (name idx)* raw ; name|-1                 decode of an enum signal
 //	R k s n ; minBits maxBits                         type range (k: i,d)
 //	S v ; r        V n ; r                            calcSizeFromValue / calcValueFromSize
@@ -159,22 +159,50 @@ func (d *decoder) run(raw, noise uint64) (dec *acmelib.SignalDecoding, pan strin
 	return res[0], ""
 }
 
+// obsValue: "<ValueType>:<dynamic Go type of Value> <value>" (floats as bit patterns)
 func obsValue(dec *acmelib.SignalDecoding) string {
+	tag := fmt.Sprintf("%s:%T", dec.ValueType, dec.Value)
 	switch v := dec.Value.(type) {
 	case bool:
 		if v {
-			return string(dec.ValueType) + " 1"
+			return tag + " 1"
 		}
-		return string(dec.ValueType) + " 0"
+		return tag + " 0"
 	case int64:
-		return string(dec.ValueType) + " " + strconv.FormatInt(v, 10)
+		return tag + " " + strconv.FormatInt(v, 10)
 	case uint64:
-		return string(dec.ValueType) + " " + strconv.FormatUint(v, 10)
+		return tag + " " + strconv.FormatUint(v, 10)
 	case float64:
-		return string(dec.ValueType) + " " + strconv.FormatUint(math.Float64bits(v), 10)
+		return tag + " " + strconv.FormatUint(math.Float64bits(v), 10)
 	default:
-		return fmt.Sprintf("%s ?%T", dec.ValueType, dec.Value)
+		return tag + " ?"
 	}
+}
+
+// accessorsOK: ValueAs<T>() returns the value for the decoding's own type and the zero value
+// for every other type ("integer kinds yield integers, other kinds float64", flags bool, enums string)
+func accessorsOK(dec *acmelib.SignalDecoding) string {
+	isNaN := func(f float64) bool { return f != f }
+	wantFlag, wantInt, wantUint, wantFloat, wantEnum := false, int64(0), uint64(0), float64(0), ""
+	switch v := dec.Value.(type) {
+	case bool:
+		wantFlag = v
+	case int64:
+		wantInt = v
+	case uint64:
+		wantUint = v
+	case float64:
+		wantFloat = v
+	case string:
+		wantEnum = v
+	}
+	f := dec.ValueAsFloat()
+	if dec.ValueAsFlag() != wantFlag || dec.ValueAsInt() != wantInt || dec.ValueAsUint() != wantUint ||
+		!(f == wantFloat || (isNaN(f) && isNaN(wantFloat))) || dec.ValueAsEnum() != wantEnum {
+		return fmt.Sprintf("ValueAsFlag/Int/Uint/Float/Enum = %v/%d/%d/%g/%q for Value %v (%T)", dec.ValueAsFlag(), dec.ValueAsInt(),
+			dec.ValueAsUint(), f, dec.ValueAsEnum(), dec.Value, dec.Value)
+	}
+	return ""
 }
 
 func sextBig(raw uint64, size int, signed bool) *big.Int {
@@ -194,9 +222,9 @@ func expectDecode(ts typSpec, raw uint64) (string, bool) {
 	switch ts.kind {
 	case 'f':
 		if raw != 0 {
-			return "flag 1", true
+			return "flag:bool 1", true
 		}
-		return "flag 0", true
+		return "flag:bool 0", true
 	case 'i':
 		if !isIntegral(ts.scale) || !isIntegral(ts.offset) {
 			return "", false
@@ -209,12 +237,12 @@ func expectDecode(ts typSpec, raw uint64) (string, bool) {
 			if !r.IsInt64() {
 				return "", false
 			}
-			return "int " + r.String(), true
+			return "int:int64 " + r.String(), true
 		}
 		if !r.IsUint64() {
 			return "", false
 		}
-		return "uint " + r.String(), true
+		return "uint:uint64 " + r.String(), true
 	default:
 		xf, _ := new(big.Float).SetInt(sextBig(raw, ts.size, ts.signed)).Float64() // float64(int): nearest even
 		for _, f := range []float64{xf, ts.scale, ts.offset} {
@@ -247,7 +275,7 @@ func expectDecode(ts typSpec, raw uint64) (string, bool) {
 				t2 = 0 // exact cancellation gives +0 under round-to-nearest
 			}
 		}
-		return "float " + strconv.FormatUint(math.Float64bits(t2), 10), true
+		return "float:float64 " + strconv.FormatUint(math.Float64bits(t2), 10), true
 	}
 }
 
@@ -289,6 +317,21 @@ func decodeCase(rc *recorder, d *decoder, raw, noise uint64, cat string) {
 	}
 	obs := obsValue(dec)
 	line := rc.emit(cat, nontriv, in, obs)
+	// kind -> value type: integer kinds yield int64 / uint64, decimal and custom kinds float64
+	// (whatever the scale), flags bool
+	wantTag := map[byte]string{'f': "flag:bool", 'd': "float:float64", 'c': "float:float64"}[ts.kind]
+	if ts.kind == 'i' {
+		wantTag = "uint:uint64"
+		if ts.signed {
+			wantTag = "int:int64"
+		}
+	}
+	if !strings.HasPrefix(obs, wantTag+" ") {
+		rc.fail("c03-value-type-"+kindName(ts.kind)+"-"+sg, key, line, fmt.Sprintf("a %s %s type decodes to %s, expected %s", sg, kindName(ts.kind), obs, wantTag))
+	}
+	if msg := accessorsOK(dec); msg != "" {
+		rc.fail("c03-value-accessors-"+kindName(ts.kind), key, line, msg)
+	}
 	exp, ok := expectDecode(ts, raw)
 	if ok && exp != obs {
 		shape := ""
@@ -346,6 +389,7 @@ var intPairs = []pair{
 	{1, 0}, {1, 1}, {1, -1}, {2, 0}, {-1, 0}, {3, 7}, {-2, -100}, {10, 5}, {255, 1000}, {1, 128},
 	{65536, -65536}, {2147483648, 2147483648}, {1, -1099511627776}, {4294967297, 3}, {1000, 0},
 	{1, 9007199254740992}, {0, 42}, {-1, -1}, {7, -3}, {1, 4611686018427387904},
+	{1e15, -1e15}, {-4611686018427387904, 0}, {9007199254740993, 1},
 	{2.5, 0}, {1, 0.75}, {-0.5, 3.999}, {1.5, -1.5},
 }
 
@@ -354,6 +398,7 @@ var floatPairs = []pair{
 	{9.5367431640625e-07, 0}, {1e10, 1}, {1e-10, -1e-10}, {1, 1e16}, {1, -9007199254740993}, {1e300, -1e300},
 	{1e-300, 1e-310}, {5e-324, 0}, {1.7976931348623157e308, 0}, {1e-320, 1e-320}, {2, 0.5}, {0.125, 1024},
 	{0.30000000000000004, 0.1}, {-1, 0}, {0, 0}, {1, -0.5}, {6.103515625e-05, -2}, {0.1, -12.8},
+	{3, 7}, {10, -40}, {1000, 0}, {-2, 1},
 }
 
 func genDecode(rc *recorder, r *rng, thorough bool) {
@@ -616,6 +661,7 @@ func genEnumDecode(rc *recorder, r *rng, n int) {
 				fmt.Fprintf(&sb, " %d %d", v.nm, v.idx)
 			}
 			fmt.Fprintf(&sb, " %d", raw)
+			typeBad := ""
 			got, pan := func() (s string, pan string) {
 				defer func() {
 					if x := recover(); x != nil {
@@ -623,8 +669,13 @@ func genEnumDecode(rc *recorder, r *rng, n int) {
 					}
 				}()
 				res := msg.SignalLayout().Decode(payload(raw, size, start, r.next()))
-				if len(res) != 1 || res[0] == nil || res[0].ValueType != acmelib.SignalValueTypeEnum {
+				if len(res) != 1 || res[0] == nil {
 					return "", "bad Decode result"
+				}
+				if _, isStr := res[0].Value.(string); !isStr || res[0].ValueType != acmelib.SignalValueTypeEnum {
+					typeBad = fmt.Sprintf("enum signal decodes to %s:%T", res[0].ValueType, res[0].Value)
+				} else if msg := accessorsOK(res[0]); msg != "" {
+					typeBad = msg
 				}
 				return res[0].ValueAsEnum(), ""
 			}()
@@ -641,6 +692,9 @@ func genEnumDecode(rc *recorder, r *rng, n int) {
 				obs = strings.TrimPrefix(got, "v")
 			}
 			line := rc.emit("enum-decode", exp != "-1", sb.String(), obs)
+			if typeBad != "" {
+				rc.fail("c03-value-type-enum", uint64(len(vals)), line, typeBad)
+			}
 			if pan != "" {
 				rc.fail("c03-enum-decode-panic", uint64(len(vals)), line, pan)
 			} else if obs != exp {
